@@ -58,3 +58,13 @@ Section Wrapped.
       lia.
   Qed.
 End Wrapped.
+
+(* the buffer sz_lossless_compress hands to ZSTD_compress is never smaller than zstd's worst case *)
+Lemma zstd_buffer_sufficient : forall n, 0 <= n -> zstd_worst n <= zstd_buffer n.
+Proof.
+  intros n Hn. unfold zstd_worst, zstd_buffer, SrcFacts.src_zstd_small_limit, SrcFacts.src_zstd_small_size, SrcFacts.src_zstd_factor_milli.
+  destruct (Z.ltb_spec n 100).
+  - assert (n / 131072 = 0) by (apply Z.div_small; lia). lia.
+  - pose proof (Z.div_mod n 131072 ltac:(lia)). pose proof (Z.mod_pos_bound n 131072 ltac:(lia)).
+    pose proof (Z.div_mod (n * 1200) 1000 ltac:(lia)). pose proof (Z.mod_pos_bound (n * 1200) 1000 ltac:(lia)). lia.
+Qed.
